@@ -199,7 +199,7 @@ class TrajModel(Model):
                 owner.environment.get_random_agent()
                 env.set_model(self)
             self.set_environment(env)
-        for i in range(max(3, min(int(cfg.get("pop", 5)), 200))):
+        for i in range(max(3, min(int(cfg.get("pop", 5)), 12000))):
             a = Agent(f"a{i}", self, tag=i % 3)
             if i % 4 != 3:
                 a.add_component(Val(a, self, i))
@@ -292,6 +292,8 @@ def _run_case(case):
         labels.add("world-prepared-by-another-model")
     if int(cfg.get("pop", 5)) > 64:
         labels.add("population>64")
+    if int(cfg.get("pop", 5)) > 10000:
+        labels.add("population>10000")
     pv = [int(v) for v in case.get("perturb") or [1]]
     a = run_plain(seed, cfg, steps, perturb=pv)
     if [e for e in a] != ref:
@@ -403,4 +405,10 @@ def strategy(tier):
     batch = st.tuples(st.lists(one, min_size=5, max_size=5), label_one, str_one, big_one).map(lambda t: t[0] + [t[1], t[2], t[3]])
     hashs = st.fixed_dictionaries({"kind": st.just("hashseed"), "configs": batch,
                                    "hashseeds": st.lists(wone_of(st.sampled_from([1, 4242]), st.integers(2, 2 ** 32 - 1)), min_size=2, max_size=3)})
-    return st.integers(0, 49).flatmap(lambda k: hashs if k == 0 else single)
+    # a population beyond 10 000 agents (a vectorised fast path for very large shuffles / picks must still use the model's generator)
+    huge = st.fixed_dictionaries({"kind": st.just("single"), "seed": seeds,
+                                  "cfg": st.fixed_dictionaries({"world": st.sampled_from(["plain", "grid"]), "wrap": st.just(False), "pop": st.sampled_from([10100, 11000]),
+                                                                "systems": st.sampled_from([["shuffler", "picker"], ["shuffler_t", "picker_tag", "shuffler"]]),
+                                                                "steps": st.just(2), "complete_at": st.none()}),
+                                  "perturb": st.lists(st.integers(-10 ** 9, 10 ** 9), min_size=1, max_size=2), "interleave": st.just([]), "batch": st.just(0)})
+    return st.integers(1, 400).flatmap(lambda k: hashs if k % 50 == 0 else (huge if k == 77 else single))
